@@ -101,6 +101,9 @@ def run_shards(pid, tier, seed, nshards, watchdog):
     procs = []
     env = shard_env()
     for i in range(nshards):
+        # string-hash randomisation differs from shard to shard (iteration order of sets / dicts of strings is
+        # part of the environment a user may have); the value is recorded with every violation for replay
+        env["PYTHONHASHSEED"] = str((seed * 131 + i * 7) % 4294967295) if i else "0"
         out = os.path.join(tmp, "shard%d.pkl" % i)
         log = open(os.path.join(tmp, "shard%d.log" % i), "wb")
         p = subprocess.Popen([sys.executable, "-W", "ignore", "-m", "lcverif.shard", pid, tier, str(seed),
@@ -235,6 +238,10 @@ def replay(mod, pid, path):
     from .shard import run_case
     with open(path) as fh:
         rec = json.load(fh)
+    want_hs = str((rec.get("env") or {}).get("PYTHONHASHSEED", os.environ.get("PYTHONHASHSEED", "0")))
+    if os.environ.get("PYTHONHASHSEED", "0") != want_hs and os.environ.get("LCVERIF_REEXEC") != "1":
+        env = dict(os.environ, PYTHONHASHSEED=want_hs, LCVERIF_REEXEC="1")
+        return subprocess.call([sys.executable, "-W", "ignore", "-m", "lcverif.runner", pid, "--replay", path], env=env)
     case = rec["case"] if "case" in rec and "facet" in rec else rec
     S = sutmod.load()
     if hasattr(mod, "setup"):
